@@ -6,4 +6,4 @@ Extraction "model.ml" mkNumOps nhalf sc_dist2 sc_grad pdiff per_dist2 per_grad c
   sc_interp v3_interp uv_interp vec_interp pv_run pv_in_force
   v3add v3sub v3scale qadd qsub qscale v3dot v3norm2 qdot uv_constrain q_constrain qnorm2 vec_inner q_interp uv_interp_undefined q_interp_undefined
   dv_rgrad comp_dist2 comp_lgrad comp_rgrad comp_wrap mr_center opes_merge_center pv_wrapped_dist2
-  hr_energy hr_force hw_distance hw_energy hw_force fd_velocity hv_kind sum_periodic sum_kind sum_creation_order dvt_dist2 dvt_lgrad dvt_rgrad.
+  hill_energy hill_force opes_kernel hr_energy hr_force hw_distance hw_energy hw_force fd_velocity hv_kind sum_periodic sum_kind sum_creation_order sum_modify sum_history dvt_dist2 dvt_lgrad dvt_rgrad.
